@@ -13,6 +13,9 @@ pub enum Act {
     GetAbsent(u8), // look up an absent key with the given home
     RemAbsent(u8), // remove an absent key
     Epoch,         // a collection happened: the table must rehash on the next access
+    Move(u8),      // a MOVING collection: every live key is relocated (its address bit `8 << n` flips, so its home
+                   // slot changes), the stored keys are updated in place through visit_roots as the collector does,
+                   // and the epoch is bumped
 }
 
 static mut NHOMES: usize = 2;
@@ -85,13 +88,23 @@ fn apply(w: &mut World, a: Act, rt: &'static dora_runtime::Runtime) -> Result<()
             }
         }
         Act::Epoch => rt.gc.verif_bump_epoch(),
+        Act::Move(n) => {
+            let bit = 8usize << n;
+            w.map.verif_visit_roots(|slot| {
+                let old = slot.get().to_usize();
+                slot.relocate(Address::from(old ^ bit));
+            });
+            let moved: BTreeMap<usize, u64> = w.reference.iter().map(|(k, v)| (*k ^ bit, *v)).collect();
+            w.reference = moved;
+            rt.gc.verif_bump_epoch();
+        }
     }
     // agreement on every live key
     let keys: Vec<usize> = w.reference.keys().cloned().collect();
     if w.map.verif_entries() != keys.len() {
         return Err(format!("entries {} != reference {}", w.map.verif_entries(), keys.len()));
     }
-    if !matches!(a, Act::Epoch) {
+    if !matches!(a, Act::Epoch | Act::Move(_)) {
         for k in keys {
             if !has_empty_slot(w) {
                 break;
@@ -196,6 +209,11 @@ pub fn run(max_depth: usize, max_states: usize, replay: Option<&str>, nhomes: us
         }
         if !stale {
             acts.push(Act::Epoch);
+            if live > 0 {
+                for n in 0..(unsafe { NHOMES } / 2).max(1) {
+                    acts.push(Act::Move(n as u8));
+                }
+            }
         }
         drop(w);
         for a in acts {
@@ -208,7 +226,7 @@ pub fn run(max_depth: usize, max_states: usize, replay: Option<&str>, nhomes: us
                     break 'bfs;
                 }
                 Ok(w2) => {
-                    let st2 = matches!(a, Act::Epoch) || (stale && false);
+                    let st2 = matches!(a, Act::Epoch | Act::Move(_)) || (stale && false);
                     let key = canon(&w2, st2);
                     if seen.insert(key) {
                         max_seen_depth = max_seen_depth.max(h2.len());
@@ -249,6 +267,7 @@ pub fn fmt_hist(h: &[Act]) -> String {
             Act::GetAbsent(x) => format!("g{}", x),
             Act::RemAbsent(x) => format!("x{}", x),
             Act::Epoch => "e".to_string(),
+            Act::Move(n) => format!("m{}", n),
         })
         .collect::<Vec<_>>()
         .join(",")
@@ -265,6 +284,7 @@ pub fn parse_hist(s: &str) -> Vec<Act> {
                 "g" => Act::GetAbsent(n),
                 "x" => Act::RemAbsent(n),
                 "e" => Act::Epoch,
+                "m" => Act::Move(n),
                 _ => panic!("bad action {}", p),
             }
         })
